@@ -10,7 +10,7 @@ open EIO EIO.Codec
 theorem inv_init (o : Opts) : Inv (init o) := by
   have hs : ∀ sid, (init o).sock sid = default := fun sid => by
     unfold World.sock init; simp [Array.getD]
-  refine ⟨logOK_nil, ?_, ?_, ?_, ?_, ?_, ?_, ?_⟩
+  refine ⟨logOK_nil, ?_, ?_, ?_, ?_, ?_, ?_, ?_, fun sid h => (by cases h)⟩
   · intro sid h; exact absurd h (closeIn_nil sid)
   · intro sid h; unfold closedW at h; rw [hs] at h; cases h
   · intro sid; rw [hs]
